@@ -65,23 +65,54 @@ def r7_identity(ctx, F):
     with the same (ino, dev, mnt) id - but, when the lookup has a handle, only an entry that has none (an entry with a
     different handle is a different file that reused the inode number)."""
     rule = "R7-identity-lookup"
+    top = F.fns.get("passthrough::<passthrough::InodeMap>::get_alt_locked")
+    if top is None:
+        raise core.Anchor("InodeMap::get_alt_locked")
+    ctx.fn_seen(top)
     want = {
         "passthrough::<passthrough::InodeMap>::get_alt_locked": "Option::cloned(Option::or_else(Option::and_then(handle, closure({closure#0})), closure({closure#1})))",
         "passthrough::<passthrough::InodeMap>::get_alt_locked::{closure#0}": "InodeStore::get_by_handle(^inodes, h)",
         "passthrough::<passthrough::InodeMap>::get_alt_locked::{closure#1}": "Option::filter(InodeStore::get_by_id(^inodes, ^id), closure({closure#0}))",
         "passthrough::<passthrough::InodeMap>::get_alt_locked::{closure#1}::{closure#0}":
-            "phi{!Option::is_none(^handle) => Option::is_none(InodeHandle::file_handle(data.handle)) | Option::is_none(^handle) => 1}",
+            "phi{!Option::is_some(^handle) => 1 | Option::is_some(^handle) => Option::is_none(InodeHandle::file_handle(data.handle))}",
     }
-    for k, w in want.items():
-        b = F.fns.get(k)
-        if b is None:
-            raise core.Anchor(k)
-        ctx.fn_seen(b)
-        v = vf.VF(b, inline_depth=0)
-        r = vf.render(v.ret(), b, short=True, vfx=v)
-        alt = w.replace("phi{!Option::is_none(^handle) => Option::is_none(InodeHandle::file_handle(data.handle)) | Option::is_none(^handle) => 1}",
-                        "BitOr(Option::is_none(^handle), Option::is_none(InodeHandle::file_handle(data.handle)))")
-        ctx.check(rule, k.split("InodeMap>::", 1)[1], r in (w, alt), "%s computes `%s`; required `%s`" % (k.split("InodeMap>::", 1)[1], r[:200], w), loc=b.loc(), detail=r[:120])
+    tv = vf.VF(top, inline_depth=0)
+    tr = vf.render(tv.ret(), top, short=True, vfx=tv)
+    if tr == want[top.key]:
+        # combinator spelling: handle.and_then(by_handle).or_else(|| by_id.filter(pred)).cloned()
+        for k, w in want.items():
+            b = F.fns.get(k)
+            if b is None:
+                raise core.Anchor(k)
+            v = vf.VF(b, inline_depth=0)
+            r = vf.render(v.ret(), b, short=True, vfx=v)
+            alt = w.replace("phi{!Option::is_some(^handle) => 1 | Option::is_some(^handle) => Option::is_none(InodeHandle::file_handle(data.handle))}",
+                            "BitOr(Option::is_none(^handle), Option::is_none(InodeHandle::file_handle(data.handle)))")
+            ctx.check(rule, k.split("InodeMap>::", 1)[1], r in (w, alt), "%s computes `%s`; required `%s`" % (k.split("InodeMap>::", 1)[1], r[:200], w), loc=b.loc(), detail=r[:120])
+    else:
+        # control-flow spelling: decided on the paths to each `Some(..)` result
+        from rules import c18
+        res = []
+        for bb in sorted(top.reachable()):
+            for i, s_ in enumerate(top.stmts(bb)):
+                if s_[0] == "=" and s_[2][0] == "agg" and isinstance(s_[2][1], dict) and s_[2][1].get("variant") == "Some" and s_[2][1].get("adt", "").endswith("Option"):
+                    val = vf.render(tv.rvalue(s_[2], bb, i), top, short=True, vfx=tv)
+                    paths = [[(t, l) for (t, l) in pf] for pf in c18.path_facts(top, tv, bb)]
+                    res.append((val, paths))
+        byh = [x for x in res if "get_by_handle(inodes, some(handle))" in x[0]]
+        byi = [x for x in res if "get_by_id(inodes, id)" in x[0]]
+        ok1 = len(byh) == 1 and all(any(t == "discr(handle)" and l == 1 for (t, l) in pf) for pf in byh[0][1])
+        ctx.check(rule, "by-handle-first", ok1 and len(res) == 2, "get_alt_locked must answer with the entry of the same file handle when the lookup has one (results: %s)" % [x[0][:60] for x in res], loc=top.loc())
+        def admits(pf):
+            return any((t == "Option::is_some(handle)" and l == 0) or (t == "discr(handle)" and l != 1 and not any(t2 == "Option::is_some(handle)" and l2 != 0 for (t2, l2) in pf)) for (t, l) in pf) or \
+                any(t.startswith("Option::is_some(InodeHandle::file_handle(") and l == 0 for (t, l) in pf)
+        ok2 = len(byi) == 1 and bool(byi[0][1]) and all(admits(pf) for pf in byi[0][1])
+        ctx.check(rule, "by-id-only-without-conflicting-handle", ok2,
+                  "get_alt_locked may fall back to the entry with the same id only if the lookup has no handle or that entry has none", loc=top.loc())
+        if byh and byi:
+            # the by-id answer is given only after the by-handle probe missed (or there was no handle)
+            ok3 = all(any(t.startswith("discr(InodeStore::get_by_handle(") and l != 1 for (t, l) in pf) or any(t == "discr(handle)" and l != 1 for (t, l) in pf) for pf in byi[0][1])
+            ctx.check(rule, "by-id-after-handle-miss", ok3, "get_alt_locked consults the id index although a handle lookup could still answer", loc=top.loc())
     b = F.method("passthrough::InodeMap", "get_alt")
     v = vf.VF(b, inline_depth=0)
     r = vf.render(v.ret(), b, short=True, vfx=v)
